@@ -5,6 +5,9 @@ f12_0:
   ret
   call f15_2
   call f23_0
+  mov wvsv0@GOTPCREL(%rip),%rax
+  mov wvsv0(%rip),%rax
+  mov wvsv1(%rip),%rax
   ret
 .section .text.f12_1,"ax",@progbits
 .globl f12_1
@@ -12,6 +15,7 @@ f12_0:
 f12_1:
   ret
   call f21_0
+  mov wvsv1(%rip),%rax
   ret
 .section .text.f12_2,"ax",@progbits
 .globl f12_2
@@ -19,6 +23,7 @@ f12_1:
 f12_2:
   ret
   call f4_0
+  mov wvsv0(%rip),%rax
   ret
 .section .text.f12_3,"ax",@progbits
 .globl f12_3
@@ -28,4 +33,5 @@ f12_3:
   call f20_3
   call f4_0
   call f2_0
+  mov wvsv0@GOTPCREL(%rip),%rax
   ret
